@@ -43,7 +43,7 @@ checks = {
    text="~9.4k (quick) / 61k (thorough) cases: lengths around every block and padding boundary, FixedLengthSum (declared max, actual) grids incl. 0 and max, all write chunkings, permutation state import, MiMC/Poseidon2 on all 7 curves, Merkle proofs depths 1..8 every leaf index with one-bit-wrong variants. Built by a sub-agent; 7/7 mutants caught; led to 1 fix commit.",
    note="Poseidon2 widths above 3 and GKR-Poseidon2 not covered; byte gadgets on fields other than bn254 get small grids", ref="§3 C15"),
 
- "C18": dict(cat="fault_enumeration", tech="adversarial-execution monitor on serialized ceremony transcripts: honest chains worked from bytes (positive: verify, keys prove/verify), then every single group element of a contribution replaced (neighbour, generator, double, negation, identity, parallel chain, previous contribution), consistent multi-element re-basings, challenge edits, reordered/spliced/dropped/duplicated/k-2 chains, foreign commons and circuits",
+ "C18": dict(cat="exploration", tech="adversarial-execution monitor on serialized ceremony transcripts: honest chains worked from bytes (positive: verify, keys prove/verify), then every single group element of a contribution replaced (neighbour, generator, double, negation, identity, parallel chain, previous contribution), consistent multi-element re-basings, challenge edits, reordered/spliced/dropped/duplicated/k-2 chains, foreign commons and circuits",
    text="bn254+bls12-377 (quick, PRNG subset per vector and class) / all 7 curves with every element enumerated (thorough, ~64k cases): Verify / VerifyPhase1 / VerifyPhase2 must reject every edited transcript except edits leaving the element equal and the documented empty-Challenge tolerance; extracted keys prove and verify and are not interchangeable with single-party keys. Built by a sub-agent; 10/11 mutants caught (1 equivalent).",
    note="per-curve typed code written for bn254 and instantiated by c18/gen.sh; domain sizes 2..64 plus the size-1 case (known finding)", ref="§3 C18"),
 
